@@ -216,6 +216,9 @@ func genRules(r *mon.Rng) []oracle.RewriteRule {
 			ru = oracle.RewriteRule{Old: "/" + r.Pick(reOld) + "/", New: r.Pick(reNew), Max: -1}
 		} else {
 			ru = oracle.RewriteRule{Old: r.Pick(litOld), New: r.Pick(litNew), Max: r.PickInt([]int{-1, -1, 0, 1, 1, 2, 3, 7})}
+			if ru.Max >= 1 && r.Bool() {
+				ru.Old = r.Pick([]string{"a", "o", ".", "0", "aa", "foo", "r"}) // occurs several times in most names: max matters
+			}
 		}
 		switch r.Intn(10) {
 		case 0, 1:
@@ -284,12 +287,15 @@ func genCase(seed uint64, idx int) *c04case {
 		l.Raw = []byte(l.WS[0] + l.Name + l.WS[1] + l.Val + l.WS[2] + l.Ts + l.WS[3])
 		out, info := rw.ApplyInfo([]byte(l.Name))
 		l.RwName = string(out)
-		for _, s := range info {
+		for k, s := range info {
 			if s.Skipped {
 				c.fx.skipped++
 			}
 			if s.Limited {
 				c.fx.limited++
+				if c.Rules[k].Max >= 2 {
+					c.fx.limitedGE2++
+				}
 			}
 			if s.Changed && s.Regex {
 				c.fx.regexChanged++
@@ -465,7 +471,7 @@ func (s *sigHandler) Handle(r io.Reader) error {
 
 type stats struct {
 	lines, delivered, destLines, aggOut, retained, changed, nontrivialLines int
-	skipped, limited, regexChanged, literalChanged                          int
+	skipped, limited, limitedGE2, regexChanged, literalChanged              int
 }
 
 func (s *stats) add(o stats) {
@@ -478,6 +484,7 @@ func (s *stats) add(o stats) {
 	s.nontrivialLines += o.nontrivialLines
 	s.skipped += o.skipped
 	s.limited += o.limited
+	s.limitedGE2 += o.limitedGE2
 	s.regexChanged += o.regexChanged
 	s.literalChanged += o.literalChanged
 }
@@ -916,7 +923,7 @@ func runCase(res *mon.Result, c *c04case, st *stats) {
 		h.shutdown()
 	}
 	sec("compare+shutdown")
-	st.skipped, st.limited, st.regexChanged, st.literalChanged = c.fx.skipped, c.fx.limited, c.fx.regexChanged, c.fx.literalChanged
+	st.skipped, st.limited, st.limitedGE2, st.regexChanged, st.literalChanged = c.fx.skipped, c.fx.limited, c.fx.limitedGE2, c.fx.regexChanged, c.fx.literalChanged
 }
 
 var setupMu sync.Mutex
@@ -1002,6 +1009,7 @@ func main() {
 	res.Count("lines_changed_and_noncanonical_layout_seen_by_all_consumers", st.nontrivialLines)
 	res.Count("rule_applications_skipped_by_not_clause", st.skipped)
 	res.Count("literal_rule_applications_cut_short_by_max", st.limited)
+	res.Count("literal_rule_applications_cut_short_by_max_of_2_or_more", st.limitedGE2)
 	res.Count("regex_rule_applications_that_changed_the_name", st.regexChanged)
 	res.Count("literal_rule_applications_that_changed_the_name", st.literalChanged)
 	res.Floor("tables", ran, n)
